@@ -548,6 +548,147 @@ theorem two_roll_late_interchangeable (ρ : String → ℝ) (W : World2 ρ) (ls 
     · exact (okIn_sound ρ canon2 g _ (fun x hx _ => canon2_sound ρ W x hx) (two_roll_control g hg o ho)).1
     · exact (okIn_sound ρ canon2 g _ (fun x hx _ => canon2_sound ρ W x hx) (two_roll_control_after_looks g hg o ho)).1
 
+/-! ## the usable cross-section spans exactly the usable width OF THE PASS
+
+`usable_cross_section` / `usable_cross_section3` hand the opening to a helper that cuts the polygon enclosed by the contour
+lines with `clip_by_rect`.  Generated: `two_usable_cs`, `three_usable_cs` (which helper is called and the TERM handed over for
+every parameter - an omitted argument appears as the helper's default) and `two_usable_cs_helper`, `three_usable_cs_helper`
+(the clip / turn steps over the parameter variables).  GEOS' polygon clipping is not modelled: the theorems follow one point
+of the opening through the steps (`keepPt`). -/
+
+/-- the implementation calls the translated helper and every parameter of the helper receives a term from it -/
+theorem usable_cs_call_binds_every_parameter :
+    two_usable_cs.helper = two_usable_cs_helper.fn ∧ two_usable_cs.args.map (·.1) = two_usable_cs_helper.params ∧
+    two_usable_cs_helper.params ≠ [] ∧
+    three_usable_cs.helper = three_usable_cs_helper.fn ∧ three_usable_cs.args.map (·.1) = three_usable_cs_helper.params ∧
+    three_usable_cs_helper.params ≠ [] := by decide
+
+/-- **two rolls: the usable cross-section is the part of the opening with `|z| ≤ usable_width / 2`, `usable_width` being the
+    hook value of the PASS** (`ρ "usable_width"`; the groove's usable width is `ρ "roll.groove.usable_width"`): a point of the
+    opening is kept, where it is, exactly when it lies in that window. -/
+theorem usable_cs_spans_usable_width (ρ : String → ℝ) (p : Pt ℝ) :
+    keepPt (callEnv ρ two_usable_cs) two_usable_cs_helper.ops p =
+      if -(ρ U / 2) ≤ p.x ∧ p.x ≤ ρ U / 2 then some p else none := by
+  by_cases h : -(ρ "usable_width" / 2) ≤ p.x ∧ p.x ≤ ρ "usable_width" / 2 <;>
+    simp [two_usable_cs, two_usable_cs_helper, keepPt, callEnv, extend, lookup, lowerOk, upperOk, eval, U, neg_div, h]
+
+theorem rot120_cube (p : Pt ℝ) : rot120 (rot120 (rot120 p)) = p := by
+  have h3 := sqrt3_sq
+  ext <;> simp only [rot120]
+  · linear_combination (3 / 8 * p.x + Real.sqrt 3 * p.y / 8) * h3
+  · linear_combination (3 / 8 * p.y - Real.sqrt 3 * p.x / 8) * h3
+
+/-- the extent of a point towards the three gaps of a three-roll pass (directions 90°, 330°, 210°) -/
+theorem rot120_extents (p : Pt ℝ) :
+    (rot120 p).y = Real.sqrt 3 / 2 * p.x - 1 / 2 * p.y ∧
+    (rot120 (rot120 p)).y = -(Real.sqrt 3 / 2) * p.x - 1 / 2 * p.y := by
+  have h3 := sqrt3_sq
+  refine ⟨rfl, ?_⟩
+  simp only [rot120]
+  linear_combination (-(1 / 4) * p.y) * h3
+
+/-- **three rolls: the usable cross-section is the part of the opening whose extent towards each of the three gaps is at most
+    `usable_width / 2`, `usable_width` being the hook value of the PASS**; a kept point ends up where it was (three turns). -/
+theorem usable_cs3_spans_usable_width (ρ : String → ℝ) (p : Pt ℝ) :
+    keepPt (callEnv ρ three_usable_cs) three_usable_cs_helper.ops p =
+      if p.y ≤ ρ U / 2 ∧ (rot120 p).y ≤ ρ U / 2 ∧ (rot120 (rot120 p)).y ≤ ρ U / 2 then some p else none := by
+  have hr : ∀ q : Pt ℝ, rotPt (120 : ℝ) q = rot120 q := fun q => rotPt_120 q
+  simp only [three_usable_cs, three_usable_cs_helper, keepPt, callEnv, extend, lookup, lowerOk, upperOk, eval, U,
+    List.map, PyNum.nat_real, Nat.cast_ofNat, hr, rot120_cube, Bool.true_and, le_real, decide_eq_true_eq, if_true]
+  by_cases h1 : p.y ≤ ρ "usable_width" / 2 <;> by_cases h2 : (rot120 p).y ≤ ρ "usable_width" / 2 <;>
+    by_cases h3 : (rot120 (rot120 p)).y ≤ ρ "usable_width" / 2 <;> simp [h1, h2, h3]
+
+/-- the width handed over is one of the canonical `usable_width` terms of the supplied member -/
+def widthIn (canon : List (String × String × Expr)) (g : String) (r : List (String × Res)) : Bool :=
+  !r.isEmpty && r.all fun x => match x.2 with
+    | .val e => decide ((g, U, e) ∈ canon)
+    | _ => false
+
+/-- **which width (control part, kernel-evaluated on the generated call and tables)**: on a fresh pass given one member, the
+    term handed to the helper is what a read of the hook `usable_width` of the pass answers (`canon2` / `canon3`); when
+    `usable_width` is given explicitly to the pass it is that value (`.var U`), and when a plug-in subclass registers its own
+    implementation it is that implementation's answer - never the groove's usable width read past the hook. -/
+theorem usable_cs_width_is_the_pass_usable_width :
+    (∀ g ∈ [G, H], widthIn canon2 g (handedOver two_cls two_usable_cs [g]) = true ∧
+      (handedOver two_cls two_usable_cs [g, U]).map (·.2) = [.val (.var U)] ∧
+      (handedOver (withPlugin two_cls U (.var "plugin.usable_width")) two_usable_cs [g]).map (·.2)
+        = [.val (.var "plugin.usable_width")]) ∧
+    (∀ g ∈ [G, H, D], widthIn canon3 g (handedOver three_cls three_usable_cs [g]) = true ∧
+      (handedOver three_cls three_usable_cs [g, U]).map (·.2) = [.val (.var U)] ∧
+      (handedOver (withPlugin three_cls U (.var "plugin.usable_width")) three_usable_cs [g]).map (·.2)
+        = [.val (.var "plugin.usable_width")]) := by decide
+
+theorem widthIn_sound (ρ : String → ℝ) (canon : List (String × String × Expr)) (g : String) (r : List (String × Res))
+    (hc : ∀ x ∈ canon, eval ρ x.2.2 = ρ x.2.1) (h : widthIn canon g r = true) :
+    r ≠ [] ∧ ∀ x ∈ r, ∃ e, x.2 = Res.val e ∧ eval ρ e = ρ U := by
+  simp only [widthIn, Bool.and_eq_true, List.all_eq_true, Bool.not_eq_true', List.isEmpty_eq_false_iff] at h
+  refine ⟨h.1, ?_⟩
+  intro x hx
+  have := h.2 x hx
+  cases hv : x.2 with
+  | val e =>
+    rw [hv] at this
+    simp only [decide_eq_true_eq] at this
+    exact ⟨e, rfl, hc _ this⟩
+  | none => rw [hv] at this; simp at this
+  | bool b => rw [hv] at this; simp at this
+  | env xs => rw [hv] at this; simp at this
+  | unit => rw [hv] at this; simp at this
+  | attrErr => rw [hv] at this; simp at this
+  | unsupported w => rw [hv] at this; simp at this
+  | fuelOut => rw [hv] at this; simp at this
+
+/-- **which width (value), two rolls**: in a consistent opening the width handed to the helper has the value of the usable
+    width of the pass, whichever member was supplied -/
+theorem usable_cs_width_value (ρ : String → ℝ) (W : World2 ρ) :
+    ∀ g ∈ [G, H], ∀ x ∈ handedOver two_cls two_usable_cs [g], ∃ e, x.2 = Res.val e ∧ eval ρ e = ρ U := by
+  intro g hg
+  exact (widthIn_sound ρ canon2 g _ (canon2_sound ρ W) ((usable_cs_width_is_the_pass_usable_width.1 g hg).1)).2
+
+/-- **which width (value), three rolls** -/
+theorem usable_cs3_width_value (ρ : String → ℝ) (c : List (Pt ℝ)) (W : World3 ρ c) :
+    ∀ g ∈ [G, H, D], ∀ x ∈ handedOver three_cls three_usable_cs [g], ∃ e, x.2 = Res.val e ∧ eval ρ e = ρ U := by
+  intro g hg
+  exact (widthIn_sound ρ canon3 g _ (canon3_sound ρ c W) ((usable_cs_width_is_the_pass_usable_width.2 g hg).1)).2
+
+/-- **three rolls, reaches exactly the usable width**: with the default usable width (`World3`) the placed usable-width end
+    points of the right and the left groove - `(±gap/2, usable_width/2)` by `three_roll_usable_width_corner` - lie ON the clip
+    line of the upper gap and are kept (for `gap ≥ 0` and a non-negative groove width): the cross-section reaches the usable
+    width there and, by `usable_cs3_spans_usable_width`, nowhere beyond. -/
+theorem usable_cs3_keeps_usable_width_corners (ρ : String → ℝ) (hU : ρ U = eval ρ three_usable_width_e)
+    (hg : 0 ≤ ρ "gap") (hw : 0 ≤ ρ "roll.groove.usable_width") :
+    keepPt (callEnv ρ three_usable_cs) three_usable_cs_helper.ops
+        (placePt ρ three_roll_line2 ⟨-(ρ "roll.groove.usable_width" / 2), 0⟩) = some ⟨ρ "gap" / 2, ρ U / 2⟩ ∧
+    keepPt (callEnv ρ three_usable_cs) three_usable_cs_helper.ops
+        (placePt ρ three_roll_line0 ⟨ρ "roll.groove.usable_width" / 2, 0⟩) = some ⟨-(ρ "gap" / 2), ρ U / 2⟩ := by
+  have h3 := sqrt3_sq
+  have hp := sqrt3_pos
+  have hc := three_roll_usable_width_corner ρ
+  rw [hc.1, hc.2, ← hU, usable_cs3_spans_usable_width, usable_cs3_spans_usable_width]
+  have hUv : Real.sqrt 3 * ρ U = 2 * ρ "roll.groove.usable_width" + ρ "gap" := by
+    rw [hU]
+    simp only [three_usable_width_e, eval, PyNum.nat_real, PyNum.sqrt_real]
+    push_cast
+    linear_combination (2 / 3 * (ρ "roll.groove.usable_width" + ρ "gap" / 2)) * h3
+  have hUpos : 0 ≤ ρ U := by
+    have : 0 ≤ Real.sqrt 3 * ρ U := by rw [hUv]; linarith
+    exact nonneg_of_mul_nonneg_right (by linarith) hp
+  obtain ⟨e1, e2⟩ := rot120_extents (⟨ρ "gap" / 2, ρ U / 2⟩ : Pt ℝ)
+  obtain ⟨f1, f2⟩ := rot120_extents (⟨-(ρ "gap" / 2), ρ U / 2⟩ : Pt ℝ)
+  have k1 : Real.sqrt 3 * (Real.sqrt 3 / 2 * (ρ "gap" / 2)) ≤ Real.sqrt 3 * (3 / 4 * ρ U) := by
+    have : Real.sqrt 3 * (Real.sqrt 3 / 2 * (ρ "gap" / 2)) = 3 / 4 * ρ "gap" := by linear_combination (ρ "gap" / 4) * h3
+    rw [this]; nlinarith
+  have k1' := le_of_mul_le_mul_left k1 hp
+  constructor
+  · rw [if_pos]
+    refine ⟨le_refl _, ?_, ?_⟩
+    · rw [e1]; simp only; linarith
+    · rw [e2]; simp only; nlinarith
+  · rw [if_pos]
+    refine ⟨le_refl _, ?_, ?_⟩
+    · rw [f1]; simp only; nlinarith
+    · rw [f2]; simp only; linarith
+
 /-! ## non-vacuity: concrete contours / openings satisfying the hypotheses -/
 
 /-- a triangular groove of width 4 and depth 1 with its face vertices at `y = 0` -/
@@ -650,5 +791,50 @@ example : ∀ x ∈ (lateSession three_cls [.contour, .hook H, .hook U] [H] [D, 
     afterwards still determines the height -/
 example : (lateSession two_cls [.hook U, .contour] [G] [H]).1 = [(U, .val two_usable_width_e), ("contour_lines", .attrErr)] ∧
     (lateSession two_cls [.hook U, .contour] [G] [H]).2.1 = [(H, .val two_height_e)] := by decide
+
+/-- usable width 4 of the pass `env2`: the point `(2, 0.3)` of the opening belongs to the usable cross-section, `(2.1, 0)` not -/
+example : keepPt (callEnv env2 two_usable_cs) two_usable_cs_helper.ops ⟨2, 3 / 10⟩ = some ⟨2, 3 / 10⟩ ∧
+    keepPt (callEnv env2 two_usable_cs) two_usable_cs_helper.ops ⟨21 / 10, 0⟩ = none := by
+  rw [usable_cs_spans_usable_width, usable_cs_spans_usable_width]
+  constructor
+  · rw [if_pos]; simp [env2, U]; norm_num
+  · rw [if_neg]; simp [env2, U]; norm_num
+
+/-- a pass whose usable width (3) is NOT the groove's (4): the usable cross-section ends at ±1.5 -/
+example : ∃ ρ : String → ℝ, ρ U ≠ ρ "roll.groove.usable_width" ∧
+    keepPt (callEnv ρ two_usable_cs) two_usable_cs_helper.ops ⟨3 / 2, 0⟩ = some ⟨3 / 2, 0⟩ ∧
+    keepPt (callEnv ρ two_usable_cs) two_usable_cs_helper.ops ⟨2, 0⟩ = none := by
+  refine ⟨fun n => if n = "usable_width" then 3 else 4, by simp [U], ?_, ?_⟩
+  · rw [usable_cs_spans_usable_width, if_pos]; simp only [U]; norm_num
+  · rw [usable_cs_spans_usable_width, if_neg]; simp only [U]; norm_num
+
+/-- three rolls, the opening `env3`: on the axis of the upper gap the usable cross-section ends exactly at `usable_width / 2` -/
+example : keepPt (callEnv env3 three_usable_cs) three_usable_cs_helper.ops ⟨0, env3 U / 2⟩ = some ⟨0, env3 U / 2⟩ ∧
+    keepPt (callEnv env3 three_usable_cs) three_usable_cs_helper.ops ⟨0, env3 U / 2 + 1⟩ = none := by
+  have h3 := sqrt3_pos
+  have hU : 0 < env3 U := by simp only [env3, U]; simp; positivity
+  rw [usable_cs3_spans_usable_width, usable_cs3_spans_usable_width]
+  constructor
+  · obtain ⟨e1, e2⟩ := rot120_extents (⟨0, env3 U / 2⟩ : Pt ℝ)
+    rw [if_pos]
+    refine ⟨le_refl _, ?_, ?_⟩
+    · rw [e1]; simp only; linarith
+    · rw [e2]; simp only; linarith
+  · rw [if_neg]
+    intro h
+    have := h.1
+    simp only at this
+    linarith
+
+example : ∀ g ∈ [G, H, D], ∀ x ∈ handedOver three_cls three_usable_cs [g], ∃ e, x.2 = Res.val e ∧ eval env3 e = env3 U :=
+  usable_cs3_width_value env3 tri3 world3_example
+
+example : ∀ g ∈ [G, H], ∀ x ∈ handedOver two_cls two_usable_cs [g], ∃ e, x.2 = Res.val e ∧ eval env2 e = env2 U :=
+  usable_cs_width_value env2 ⟨by simp [env2, two_height_e, eval]; norm_num, by simp [env2, two_usable_width_e, eval]⟩
+
+/-- the corners of `env3` (gap 1, groove width 2) -/
+example : keepPt (callEnv env3 three_usable_cs) three_usable_cs_helper.ops
+    (placePt env3 three_roll_line2 ⟨-(env3 "roll.groove.usable_width" / 2), 0⟩) = some ⟨env3 "gap" / 2, env3 U / 2⟩ :=
+  (usable_cs3_keeps_usable_width_corners env3 world3_example.usable_width (by simp [env3]) (by simp [env3])).1
 
 end C09
